@@ -59,6 +59,9 @@ func genLiveSegment(log *slog.Logger, vodFS fs.FS, a *asset, cfg *ResponseConfig
 				seg.Sidx.Timescale = meta.timescale
 			}
 			seg.Sidx.EarliestPresentationTime = meta.newTime
+			if meta.newTime >= 1<<32 {
+				seg.Sidx.Version = 1 // 64-bit earliest_presentation_time
+			}
 		}
 		timeShift := meta.newTime - seg.Fragments[0].Moof.Traf.Tfdt.BaseMediaDecodeTime()
 		if strings.HasPrefix(meta.rep.Codecs, "stpp") {
